@@ -89,6 +89,12 @@ InvalidDocs ==
                                                                      El(DAV, "href", << >>, <<Txt("h1")>>)>>)})
   \cup K("allcomp with comp", {El(CAL, "calendar-query", << >>, <<El(DAV, "prop", << >>, <<El(CAL, "calendar-data", << >>, <<El(CAL, "comp", <<At("name", "VCALENDAR")>>, <<El(CAL, "allcomp", << >>, << >>), El(CAL, "comp", <<At("name", "VEVENT")>>, << >>)>>)>>)>>),
                                                                      El(CAL, "filter", << >>, <<CompFDoc(Q0.filter)>>)>>)})
+  \* the same conflicts one level down: on a comp nested in the outermost comp
+  \cup K("nested allprop with prop", {El(CAL, k[1], << >>, <<El(DAV, "prop", << >>, <<El(CAL, "calendar-data", << >>, <<El(CAL, "comp", <<At("name", "VCALENDAR")>>,
+                                          <<El(CAL, "allprop", << >>, << >>), El(CAL, "comp", <<At("name", "VEVENT")>>, inner)>>)>>)>>), k[2]>>) :
+                                       k \in {<<"calendar-query", El(CAL, "filter", << >>, <<CompFDoc(Q0.filter)>>)>>, <<"calendar-multiget", El(DAV, "href", << >>, <<Txt("h1")>>)>>},
+                                       inner \in {<<El(CAL, "allprop", << >>, << >>), El(CAL, "prop", <<At("name", "n1")>>, << >>)>>,
+                                                  <<El(CAL, "prop", <<At("name", "n1")>>, << >>), El(CAL, "allcomp", << >>, << >>), El(CAL, "comp", <<At("name", "VALARM")>>, << >>)>>}})
 
 \* ---------- F0
 ASSUME \A q \in Queries \cup {BigTextQ} : QueryShape(QueryDoc(q)) /\ QueryOrder(QueryDoc(q)) /\ QueryDenotes(QueryDoc(q)) = q
